@@ -188,8 +188,11 @@ def evaluate(
         # open trees. In the case that there *were* such quantifiers, we still convert
         # to an SMT formula, replacing all quantifiers with fresh predicates, which
         # still allows us to perform an evaluation.
+        predicate_mapping: Dict[Formula, z3.BoolRef] = {}
         smt_formula: z3.BoolRef = approximate_isla_to_smt_formula(
-            without_predicates, replace_untranslatable_with_predicate=True
+            without_predicates,
+            replace_untranslatable_with_predicate=True,
+            predicate_mapping=predicate_mapping,
         )
 
         smt_result = is_valid(smt_formula)
@@ -202,7 +205,15 @@ def evaluate(
             if not propositionally_unsatisfiable(
                 reduce(Formula.__and__, qfr_free_assumptions, sc.true())
             ):
-                return ThreeValuedTruth.false()
+                # If parts of the formula (quantifiers over open trees, predicates
+                # that are not yet ready) were abstracted by uninterpreted predicates,
+                # "not valid" does not mean "false": The outcome depends on how the
+                # open parts are completed.
+                return (
+                    ThreeValuedTruth.unknown()
+                    if predicate_mapping
+                    else ThreeValuedTruth.false()
+                )
         else:
             assert smt_result.is_true()
 
